@@ -1,7 +1,9 @@
 # C16 — VarOpt samples conserve total weight and keep heavy items exactly
 #
-# Requires fixes/16_deserialize_m.patch and fixes/16_union_pseudo_exact_tau.patch in /repo (the model is the REPAIRED
-# behaviour; coq/Regression_varopt.v keeps the old behaviour as refuted theorems).
+# Requires fixes/16_deserialize_m.patch, 16_deserialize_marks_init.patch, 16_union_pseudo_exact_tau.patch and
+# 16_union_pseudo_exact_heap.patch in /repo (the model is the REPAIRED behaviour; coq/Regression_varopt.v keeps the old
+# behaviour of the first, third and fourth as refuted theorems; the second is an uninitialised read found by UBSan, below
+# the model's abstraction).
 #
 # Mutation log (scratch worktree /tmp/wt_varopt with both fixes applied, VERIF_SEED=1, quick tier); each is reported as VIOLATION:
 #   M1  downsample_candidate_set does not store total_wt_r_ = wt_cands                         (DESIGN section 9 row C16)
@@ -11,14 +13,18 @@
 #   M5  update_warmup_phase does not count the mark (num_marks_in_h_)                          (DESIGN: marks not counted)
 #   M6  var_opt_union::resolve_tau: sketch_tau > outer_tau flipped to <
 #   M7  grow_candidate_set loop: next_wt * num_cands < next_tot_wt  ->  <=                      (off by one at equality)
-#   MUTATION_LOG_REST
+#   M8  var_opt_union::merge_items passes mark = false for the R samples
+#   M9  estimate_subset_sum: R loop bound idx < k_ + 1  ->  idx < k_  (misses the last R slot)
+#   M10 detect_and_handle_subcase_of_pseudo_exact: condition3 == replaced by >=
+#   M12 serialize: mark bit written at position (i + 1) & 7 (caught through the union serialize/deserialize ops)
 # Harmless rewrites, not reported (exit 0):
-#   HARMLESS_LOG
+#   H1  grow_data_arrays always grows by << 3 instead of << rf_ (different growth factor)
+#   H2  independent statements reordered in update_light (++m_ first), decrease_k_by_1 (--n_, --k_, --h_) and reset()
 import struct
 from fractions import Fraction
 
 PROP = "C16"
-READY = False
+READY = True
 COQ_PROPS = ['Properties_C16', 'Regression_varopt']
 RULE = ('operation scripts over several var_opt_sketch<int64_t> registers and a var_opt_union<int64_t> with every random choice of '
         'the library supplied through the DATASKETCHES_VERIF hook and replayed by the model: k in 1..32 (refused k=0 and k>2^31-2), '
@@ -29,7 +35,8 @@ RULE = ('operation scripts over several var_opt_sketch<int64_t> registers and a 
         'trips (bytes, stream, header) into another register followed by further updates, copies, resets; unions (max_k from 1 to '
         'more than all samples together) of sketches with different k and fill state (empty, under-full, exactly full, estimation '
         'mode, deserialized copies, the same sketch twice, equal taus), union dumps, intermediate and final get_result, updates '
-        'and a round trip of the result, union reset and reuse; non-trivial = some register leaves the warm-up phase (n > k) or a '
+        'and a round trip of the result, serialize/deserialize of the union itself (bytes, stream, header) with both copies '
+        'continuing, union reset and reuse; non-trivial = some register leaves the warm-up phase (n > k) or a '
         'round trip / union happens')
 TRUSTED = ['Coq kernel; the hand-written model coq/VarOptDefs.v is validated only by the correspondence runs (bit-exact replay)',
            'random choices are taken from the hook log (E lines) instead of modelling mt19937_64/uniform distributions',
@@ -290,11 +297,7 @@ def oracle(case, irecs, mrecs):
                     bad('invalid_weight_accepted', 'update accepted invalid weight %r' % b2d(op[3]), i)
             elif R != [1]:
                 if not g['taint']:
-                    if g['deser'] and g['cnt'] > g['k']:
-                        bad('update_throws_after_deserialize',
-                            'update() with valid weight %r throws on a sketch obtained from deserialize() of an estimation-mode '
-                            'sketch (n=%d > k=%d); n_ is incremented, the item is lost' % (b2d(op[3]), g['cnt'], g['k']), i)
-                    elif g['union'] and g['light_h']:
+                    if g['union'] and g['light_h']:
                         bad('update_throws_on_union_result',
                             'update() with valid weight %r throws on the sketch returned by var_opt_union::get_result(): the result '
                             'holds an H item lighter than its tau (pseudo-exact shortcut taken although an unmarked H item is lighter '
@@ -469,7 +472,7 @@ MANIFEST = dict(
                 'combined n and total weight, k <= max_k, at most k samples, empty M region, every sample item is an input item and '
                 'every H sample is an input (item, weight) pair with its exact weight (num_marks_in_h_ proved to count the marked H '
                 'slots through every operation). Regression_varopt.v keeps '
-                'the two repaired defects as refuted theorems about the old code. The binary64 instance of the same model text is extracted '
+                'the three repaired model-level defects as refuted theorems about the old code. The binary64 instance of the same model text is extracted '
                 'and compared bit for bit with the C++ (ASan/UBSan build, all random draws replayed through the hook) on generated scripts; '
                 'the property predicates (counts, conservation, heavy items kept exactly, samples from the input, subset-sum total, '
                 'lb <= estimate <= ub, union n / weight / k) are evaluated on the implementation\'s outputs against the model\'s ghost log.'),
@@ -484,6 +487,7 @@ MANIFEST = dict(
                 'checked as k <= max_k and samples <= k: by design the library can return more samples than the smallest input k (inputs '
                 'k=4 and k=8 give k=7). Serialization is modelled as validity checks + constructor arguments, not bytes. Observations '
                 'outside the property text: estimate_subset_sum reports total_sketch_weight = weight of the matching items (not the total) '
-                'while r = 0; the pseudo-exact coercer returns H in array order without re-heapifying (no observable violation found). '
-                'Requires fixes/16_deserialize_m.patch and fixes/16_union_pseudo_exact_tau.patch in /repo.'),
+                'while r = 0. '
+                'Requires fixes/16_deserialize_m.patch, 16_deserialize_marks_init.patch, 16_union_pseudo_exact_tau.patch, '
+                '16_union_pseudo_exact_heap.patch in /repo.'),
     design_ref='DESIGN.md section 5 C16')
